@@ -49,7 +49,10 @@ class BitStore:
     def __init__(self, initializer: Union[int, bitarray.bitarray, str, None] = None,
                  immutable: bool = False) -> None:
         # Always store big-endian: a little-endian bitarray initializer keeps its bit sequence, not its byte layout.
-        self._bitarray = bitarray.bitarray(initializer, endian='big')
+        try:
+            self._bitarray = bitarray.bitarray(initializer, endian='big')
+        except OverflowError:
+            raise CreationError(f"Can't create a bitstring of length {initializer} as it is too large.")
         self.immutable = immutable
         self.modified_length = None
 
